@@ -54,16 +54,27 @@ def render_name(n):
     return f"F{n[1]}_{n[2]}"
 
 
-def make_definition(d):
-    dims = [flodym.DimensionDefinition(name=NAMES[l], letter=l, dtype=DTYPES[l]) for l in ("t", "r", "e")]
-    flows = [flodym.FlowDefinition(from_process_name=f["from"], to_process_name=f["to"], dim_letters=tuple(f["dims"]),
-                                   name_override=(f["override"] or None)) for f in d["flows"]]
+def make_definition(d, spelling="long"):
+    """spelling "alias": the documented alternative field names (from_process / to_process, dim_letter, process_name);
+    "dict": the definitions handed to MFADefinition as plain dictionaries with the alternative names"""
+    if spelling == "long":
+        dims = [flodym.DimensionDefinition(name=NAMES[l], letter=l, dtype=DTYPES[l]) for l in ("t", "r", "e")]
+        flows = [flodym.FlowDefinition(from_process_name=f["from"], to_process_name=f["to"], dim_letters=tuple(f["dims"]),
+                                       name_override=(f["override"] or None)) for f in d["flows"]]
+    elif spelling == "alias":
+        dims = [flodym.DimensionDefinition(name=NAMES[l], dim_letter=l, dtype=DTYPES[l]) for l in ("t", "r", "e")]
+        flows = [flodym.FlowDefinition(from_process=f["from"], to_process=f["to"], dim_letters=tuple(f["dims"]),
+                                       name_override=(f["override"] or None)) for f in d["flows"]]
+    else:
+        dims = [dict(name=NAMES[l], dim_letter=l, dtype=DTYPES[l]) for l in ("t", "r", "e")]
+        flows = [dict(from_process=f["from"], to_process=f["to"], dim_letters=tuple(f["dims"]),
+                      name_override=(f["override"] or None)) for f in d["flows"]]
     stocks = []
     for s in d["stocks"]:
         kw = dict(name=s["name"], dim_letters=tuple(s["dims"]), subclass=stock_class(s["cls"]), solver=s["solver"],
                   time_letter=s["tl"])
         if s["proc"]:
-            kw["process"] = s["proc"]
+            kw["process" if spelling == "long" else "process_name"] = s["proc"]
         if s["lm"]:
             kw["lifetime_model_class"] = LM[s["lm"]]
         stocks.append(flodym.StockDefinition(**kw))
@@ -97,12 +108,18 @@ def write_files(d, tmp, excel):
 
 
 def build(d, route, tmp):
-    definition = make_definition(d)
-    if route == "reader":
+    definition = make_definition(d, "alias" if route == "manual_alias" else ("dict" if route == "reader_dict" else "long"))
+    if route in ("reader", "reader_dict"):
         return flodym.MFASystem.from_data_reader(definition, Reader())
     if route == "csv":
         df, pf = write_files(d, tmp, excel=False)
         return flodym.MFASystem.from_csv(definition, dimension_files=df, parameter_files=pf)
+    if route == "csv_kwargs":
+        # the readers' documented pass-through of pandas keywords (here harmless ones): same system as from_csv
+        df, pf = write_files(d, tmp, excel=False)
+        reader = flodym.CompoundDataReader(dimension_reader=flodym.CSVDimensionReader(dimension_files=df, encoding="utf-8"),
+                                           parameter_reader=flodym.CSVParameterReader(parameter_files=pf))
+        return flodym.MFASystem.from_data_reader(definition, reader)
     if route == "excel":
         df, pf = write_files(d, tmp, excel=True)
         return flodym.MFASystem.from_excel(definition, dimension_files=df, parameter_files=pf,
@@ -182,7 +199,8 @@ def compare(mfa, d, exp, tag):
 def run_build(vec):
     d, exp = vec["def"], vec["res"]
     problems = []
-    routes = ["manual"] if d["naming"] != "arrow" else ["reader", "csv", "excel", "excel_first_sheet", "manual"]
+    routes = ["manual", "manual_alias"] if d["naming"] != "arrow" else \
+        ["reader", "reader_dict", "csv", "csv_kwargs", "excel", "excel_first_sheet", "manual", "manual_alias"]
     tmp = tempfile.mkdtemp(prefix="flodym-verif-sys-")
     try:
         for route in routes:
@@ -225,7 +243,7 @@ def run_dimfile(vec):
             if f["ftype"] == "csv":
                 path = os.path.join(tmp, "dim.csv")
                 df.to_csv(path, header=False, index=False)
-                reader = flodym.CSVDimensionReader(dimension_files={f["name"]: path})
+                reader = flodym.CSVDimensionReader(dimension_files={f["name"]: path}, **({"encoding": "utf-8"} if len(items) % 2 else {}))
             else:
                 path = os.path.join(tmp, "dim.xlsx")
                 with pd.ExcelWriter(path) as w:
